@@ -30,7 +30,7 @@ def histories(tier, rng):
             add(size, cap, [{"op": "add", "w": 0, "n": 1}, S(), S(), S(), S(), {"op": "remove", "w": 0, "n": 1}, S(), S(), S()])
     for size in (2, 3):
         add(size, 0, [H(1)] + [S() for _ in range(7)] + [R(1)])                                    # unbounded mailboxes never skip
-    n = 60 if tier == "quick" else 1200
+    n = 60 if tier == "quick" else 6000
     for _ in range(n):
         size = rng.choice([1, 2, 2, 3, 3, 4]); cap = rng.choice([0, 1, 1, 2, 3])
         ops = []; nw = size
